@@ -81,7 +81,7 @@ impl Loop {
 // ---------- the signal arms of the select loop ----------
 impl Loop {
 //@extract id=loop_on_sighup file=junos-agent/src/task.rs impl=/Loop<T>/ fn=start block=/_ = sighup\.recv\(\) =>/ rules=R2,R3,R17 contret=1
-//@sig pub fn on_sighup(&self, interval: &mut Interval, backoff: Duration)
+//@sig pub fn on_sighup(&self, mut interval: &mut Interval, backoff: Duration)
 //@contract
         // C19: SIGHUP triggers an immediate run - whatever state the back-off is in
         ensures final(interval).next_delay@ == 0, final(interval).period@ == old(interval).period@,     // OBL:C19.sighup.triggers_an_immediate_run
